@@ -22,7 +22,9 @@ PermsFor(A) == LET n == Len(A) IN
        {LET a == us[((HashA(A) + k) % Len(us)) + 1]  q == Affine(n, a, (HashA(A) * 3 + 5 * k) % n)
         IN IF k % 2 = 0 THEN Swap12(q) ELSE q : k \in 1..PerGraph}
 Mk(g, p) == [blk |-> g[1], n |-> Len(g[2]), directed |-> g[3], A |-> g[2], w |-> Wt(g[2]), perm |-> p,
-             src |-> SetToSeq(Src(Len(g[2]))), tgt |-> SetToSeq((1..Len(g[2])) \ Src(Len(g[2])))]
+             src |-> SetToSeq(Src(Len(g[2]))), tgt |-> SetToSeq((1..Len(g[2])) \ Src(Len(g[2]))),
+             \* a second, balanced split (odd / even nodes) for the list-indexed InteractingNetworks measures
+             g1 |-> SetToSeq({k \in 1..Len(g[2]) : k % 2 = 1}), g2 |-> SetToSeq({k \in 1..Len(g[2]) : k % 2 = 0})]
 Cases == SetToSeq(UNION {{Mk(g, p) : p \in PermsFor(g[2])} : g \in Graphs})
 Numbered == [k \in 1..Len(Cases) |-> [case |-> "p" \o ToString(k)] @@ Cases[k]]
 ASSUME ndJsonSerialize(IOEnv.GEN_OUT, Numbered)
